@@ -14,6 +14,14 @@ def load_spline(mode='R'):
         _CACHE[key] = loader.load('spowtd.spline', mode, bindings={'splev': libstubs.splev, 'splint': libstubs.splint,
                                                                 'splrep': libstubs.splrep,
                                                                 'interpolate_mod': libstubs.interpolate_mod})
+        # module-level aliases taken from the real scipy.interpolate at import time (`f = interpolate_mod.f`)
+        import scipy.interpolate as real_interpolate
+        mod = _CACHE[key]
+        for attr in ('splev', 'splint', 'splrep', 'splantider'):
+            real_f = getattr(real_interpolate, attr, None)
+            for name, val in list(vars(mod).items()):
+                if real_f is not None and val is real_f:
+                    setattr(mod, name, getattr(libstubs, attr))
     return _CACHE[key]
 
 
